@@ -79,7 +79,9 @@ def closeCfg (env : Env) (kBanned : Tabular.RIssue) (cfg : Tabular.Cfg) : Tabula
 /-- a text the closed file model does not speak about: Delay splitting, a construct outside `Validate`, or a string
 on which the real validator raises -/
 def textUnmodelled (env : Env) (text : Str) : Bool :=
-  hasDelay text || unmodelledP env (parse env text) || raises env false text || dupRaises env (parse env text).root0
+  hasDelay text ||
+    (let p := parse env text
+     unmodelledP env p || raisesP env false text p || dupRaises env p.root0)
 
 /-- every text the file model consults an oracle on (cells, joined rows, series texts, time points) -/
 def consulted (cfg : Tabular.Cfg) (T : List Tabular.Row) : List Str :=
@@ -98,6 +100,26 @@ def rowSplit (env : Env) (kBanned : Tabular.RIssue) (cfg : Tabular.Cfg) (r : Tab
 
 def tabUnmodelled (env : Env) (kBanned : Tabular.RIssue) (cfg : Tabular.Cfg) (T : List Tabular.Row) : Bool :=
   (consulted cfg T).any (textUnmodelled env) || T.any (rowSplit env kBanned cfg)
+
+/-! ### evaluation with a table of the oracle's values (the driver's way to compute `validateClosed`; equal to it:
+`Props/Closed.lean`, `memoTab_eq`) -/
+
+def memo {β} (f : Str → β) (tab : List (Str × Thunk β)) (t : Str) : β :=
+  match tab.find? (·.1 == t) with
+  | some e => e.2.get
+  | none => f t
+
+/-- values computed on demand, at most once -/
+def tabulate {β} (f : Str → β) (texts : List Str) : List (Str × Thunk β) := texts.map fun t => (t, Thunk.mk fun _ => f t)
+
+def memoTab (o : Tabular.Oracle) (texts : List Str) : Tabular.Oracle :=
+  let c := tabulate o.cell texts
+  let f := tabulate o.full texts
+  let p := tabulate o.pfull texts
+  let b := tabulate o.banned texts
+  let m := tabulate o.markers texts
+  { o with cell := memo o.cell c, full := memo o.full f, pfull := memo o.pfull p, banned := memo o.banned b,
+           markers := memo o.markers m }
 
 end HedVerif.Closed
 
@@ -146,6 +168,14 @@ def entryBasic (env : Env) (s : Str) : List Validate.Issue := basicP env true s 
 def defCount (env : Env) (s : Str) : Nat :=
   ((tagsList (parseNoRefs env s).root0).filter fun t => fold (shortBase env t) == fold definitionKey).length
 
+/-- `_validate_pound_sign_count` counts `#` in `str()` of the tree (after `remove_refs`, `remove_definitions`,
+`shrink_defs`); `SidecarV.poundCount` counts them in the entry text.  The two differ for an entry whose tree does not print
+all its `#` (unbalanced parentheses: empty tree) or that holds a Def-expand group with a placeholder: outside the fragment. -/
+def poundTreeDiffers (env : Env) (s : Str) : Bool :=
+  let r0 := (parseNoRefs env s).root0
+  SidecarV.countHash s != SidecarV.countHash (strList env r0) ||
+    (s.contains '#' && (tagsList r0).any fun t => shortBase env t == defExpandKey)
+
 def pair (i : Validate.Issue) : Str × Nat := (i.code, i.sev)
 
 def sidecarOracle (env : Env) : SidecarV.Oracle where
@@ -154,6 +184,12 @@ def sidecarOracle (env : Env) : SidecarV.Oracle where
   defCount := defCount env
   repNa := fun t _ => t
   defIssues := []
+
+def memoSidecar (o : SidecarV.Oracle) (texts : List Str) : SidecarV.Oracle :=
+  let b := tabulate o.basic texts
+  let f := tabulate o.full texts
+  let d := tabulate o.defCount texts
+  { o with basic := memo o.basic b, full := memo o.full f, defCount := memo o.defCount d }
 
 end HedVerif.Closed
 
